@@ -117,13 +117,40 @@ def mk_dtype(spec):
     return np.dtype(spec)
 
 
+def has_holes(dt):
+    """does the dtype contain bytes that belong to no field (padding of aligned structs, offsets with gaps)?"""
+    if dt.subdtype is not None:
+        return has_holes(dt.subdtype[0])
+    if not dt.names:
+        return False
+    covered = 0
+    for nm in dt.names:
+        fdt = dt.fields[nm][0]
+        if has_holes(fdt):
+            return True
+        covered += fdt.itemsize
+    return covered != dt.itemsize
+
+
 def canon_bytes(x):
-    """element bytes; padding holes of aligned structured dtypes are not element data"""
+    """element bytes.  Hole-free dtypes: the raw bytes, exactly.  Structured dtypes with padding holes: the
+    fields repacked (the hole bytes are not element content; numpy copies whatever the source buffer holds)"""
     x = np.asarray(x)
-    if x.dtype.names:
+    if x.dtype.names and has_holes(x.dtype):
         from numpy.lib import recfunctions as rfn
         x = rfn.repack_fields(np.ascontiguousarray(x), recurse=True)
     return x.tobytes()
+
+
+def same_region(body, src, order):
+    """the file's data region vs the array written in `order`"""
+    if not has_holes(src.dtype):
+        return body == src.tobytes(order)
+    if len(body) != src.nbytes:
+        return False
+    flat = np.frombuffer(body, dtype=src.dtype, count=src.size)
+    want = np.frombuffer(src.tobytes(order), dtype=src.dtype, count=src.size)
+    return canon_bytes(flat) == canon_bytes(want)
 
 
 def fill(dt, n, rng):
@@ -214,7 +241,7 @@ def digest(a):
     a = np.asarray(a)
     if a.dtype.hasobject:
         return hashlib.md5(pickle.dumps(a.tolist(), protocol=2)).hexdigest()
-    return hashlib.md5(np.ascontiguousarray(a).tobytes()).hexdigest()
+    return hashlib.md5(canon_bytes(np.ascontiguousarray(a))).hexdigest()
 
 
 def native(dt):
@@ -297,7 +324,7 @@ def run_array(c):
                 body = data[start: start + w["nbytes"]]
                 lay.append({"pos": pos, "pad_byte": b, "padding_all_ff": padding == b"\xff" * b,
                             "data_start": start, "end": w["end"],
-                            "data_ok": body == src.tobytes("F" if w["order"] == "F" else "C"),
+                            "data_ok": same_region(body, src, "F" if w["order"] == "F" else "C"),
                             "head": data[pos: pos + 1 + b + 4].hex()})
             out["layout"] = lay
         # load
